@@ -150,6 +150,7 @@ func (e *Engine) Prelude() string {
 ; (IntDecConvertSigned; larger positive integers are an error), and none of the package's own pointer / struct types
 (define-fun dec_val_ok ((v Any)) Bool (or (= v A_nil) ((_ is A_int64) v) ((_ is A_string) v) ((_ is A_LJbyte) v) ((_ is A_LJany) v) ((_ is A_mapLanyJany) v) ((_ is A_bool) v) ((_ is A_float64) v) (and ((_ is A_other) v) (= (other_tid v) 900006))))
 ; encoder contract for a byte string item: well-formed, shortest head, content verbatim
+(assert (forall ((b Bytes)) (! (> (blen (enc (cv_bstr b))) (blen b)) :pattern ((enc (cv_bstr b)))))) ; the item contains its content
 (assert (forall ((b Bytes)) (! (=> (< (blen b) 18446744073709551616) (and (bstr_wf (enc (cv_bstr b))) (head_minimal (enc (cv_bstr b))) (= (bstr_content (enc (cv_bstr b))) b))) :pattern ((enc (cv_bstr b))))))
 ; ---- errors ----
 (declare-fun wraps (Any) Any)
